@@ -147,7 +147,7 @@ def case_seed(seed, alpha):
 
 def main(ctx):
     ctx.rule = ("complete product: point cloud {3 model samples, rounded (ties), heavy-tailed, float lattice, int64 lattice with negative values, int32 counts} x n x seed x alpha in "
-                "{1e-4,1e-3,.01,.1,.3} x deg_step in the 19 integer divisors of 360 in [1,60] and 7 float steps (1.5, 2.5, 4.5, 7.5, 22.5, 5.0, 12.0); plus sample=None (drawn from the "
+                "{1e-4,1e-3,.01,.1,.3} (plus every n in 50..260 and n = 500, 501, 1001, 2001, 4001, 5001, 10001 for two clouds with alpha also .05, .2, .25) x deg_step in the 19 integer divisors of 360 in [1,60] and 7 float steps (1.5, 2.5, 4.5, 7.5, 22.5, 5.0, 12.0); plus sample=None (drawn from the "
                 "model, global RNG seeded). evaluations = contours; non-trivial = at least 2 sample points lie beyond each "
                 "tangent line (n*alpha >= 2).")
     ctx.assumptions = ["the empirical quantile may follow any Hyndman-Fan definition: offset must lie between the order "
@@ -163,6 +163,10 @@ def main(ctx):
             for seed in seeds:
                 for st in steps:
                     cases.append({"cloud": kind, "n": n, "seed": seed + ctx.seed * 0, "alphas": ALPHAS, "steps": [st]})
+    # every sample size 50..260 and sizes 10^k+1 etc.: (n-1)(1-alpha), n(1-alpha) hit integers for some of them only
+    for kind in ("hs_tz", "lattice"):
+        for n in list(range(50, 261)) + [500, 501, 1001, 2001, 4001, 5001, 10001]:
+            cases.append({"cloud": kind, "n": n, "seed": 1, "alphas": ALPHAS + [0.05, 0.2, 0.25], "steps": [6, 10, 45]})
     for alpha in (0.3, 0.07, 0.01):
         for st in (5, 6, 30):
             cases.append({"cloud": "model_draw", "n": int(100 / alpha), "seed": 5 + ctx.seed, "alphas": [alpha], "steps": [st]})
